@@ -4,7 +4,7 @@
     [wf v] ([wfb v = true]) is what every Rust [Value] satisfies: UTF-8 strings, strictly
     key-sorted maps, machine ranges, lengths < 2^64.  Floats are bit patterns. *)
 From GV Require Export Value.Laws Value.RowKey.
-From GV Require Import Value.ProofsIeee Value.ProofsValue Value.ProofsOrd Value.ProofsBincode Value.ProofsSpill.
+From GV Require Import Value.ProofsIeee Value.ProofsValue Value.ProofsOrd Value.ProofsLaws Value.ProofsBincode Value.ProofsSpill.
 Open Scope Z_scope.
 
 (** * HashableValue *)
@@ -57,24 +57,39 @@ Print Assumptions oeq_hash_inconsistent_refuted.
 Theorem ocmp_total_order_outside_K :
   (forall x, ocmp x x = Eq /\ oeq x x = true) /\
   (forall x y, ocmp y x = CompOpp (ocmp x y)) /\
-  (forall x y, oeq x y = true <-> ocmp x y = Eq) /\
-  (forall x y, ocmp x y = Lt \/ oeq x y = true \/ ocmp y x = Lt) /\
-  (forall x y z, owfb x = true -> owfb y = true -> owfb z = true -> k_trans x y z = false ->
-     ocmp x y <> Gt -> ocmp y z <> Gt -> ocmp x z <> Gt) /\
-  (forall x y z, owfb x = true -> owfb y = true -> owfb z = true -> k_trans x y z = false ->
+  (forall x y, owfb x = true -> owfb y = true -> (oeq x y = true <-> ocmp x y = Eq)) /\
+  (forall x y, owfb x = true -> owfb y = true -> ocmp x y = Lt \/ oeq x y = true \/ ocmp y x = Lt) /\
+  (forall x y z, owfb x = true -> owfb y = true -> owfb z = true ->
      ocmp x y = Lt -> ocmp y z = Lt -> ocmp x z = Lt) /\
-  (forall x y z, owfb x = true -> owfb y = true -> owfb z = true -> k_trans x y z = false ->
+  (forall x y z, owfb x = true -> owfb y = true -> owfb z = true -> k_mid x y z = false ->
+     ocmp x y <> Gt -> ocmp y z <> Gt -> ocmp x z <> Gt) /\
+  (forall x y z, owfb x = true -> owfb y = true -> owfb z = true -> k_mid x y z = false ->
      oeq x y = true -> oeq y z = true -> oeq x z = true) /\
   (forall x y, owfb x = true -> owfb y = true -> k_hash x y = false -> oeq x y = true -> ofeed x = ofeed y).
 Proof.
-  repeat split; try (intros; first [apply ocmp_refl_l|apply oeq_refl_l|apply ocmp_antisym_l|apply ocmp_total_l]);
-    try (apply oeq_iff_cmp_l).
-  - exact ocmp_le_trans_outside_K_l.
-  - exact ocmp_lt_trans_outside_K_l.
-  - exact ocmp_eq_trans_outside_K_l.
-  - exact ohash_outside_K_l.
+  split; [intros x; split; [apply ocmp_refl_l|apply oeq_refl_l]|].
+  split; [exact ocmp_antisym_l|]. split; [exact oeq_iff_cmp_l|]. split; [exact ocmp_total_l|].
+  split; [exact ocmp_lt_trans_l|]. split; [exact ocmp_le_trans_sharp_l|]. split; [exact oeq_trans_sharp_l|].
+  exact ohash_outside_K_l.
 Qed.
 Print Assumptions ocmp_total_order_outside_K.
+
+(** the classes are exact: on well-formed orderables the law checkers that the check evaluates
+    beside the implementation (all six orders of a triple; both directions of a pair) hold
+    precisely outside K1 = [k_trans] (the closure of [k_mid] under reordering) and K2 = [k_hash] *)
+Theorem k_trans_exact : forall x y z, owfb x = true -> owfb y = true -> owfb z = true ->
+  olaw_trans_all x y z = negb (k_trans x y z).
+Proof. exact k_trans_exact_l. Qed.
+Print Assumptions k_trans_exact.
+
+Theorem k_hash_exact : forall x y, owfb x = true -> owfb y = true ->
+  olaw_hash x y = negb (k_hash x y && oeq x y).
+Proof. exact k_hash_exact_l. Qed.
+Print Assumptions k_hash_exact.
+
+Theorem k_mixed3_covers_k_trans : forall x y z, k_mixed3 x y z = false -> k_trans x y z = false.
+Proof. exact k_mixed3_trans. Qed.
+Print Assumptions k_mixed3_covers_k_trans.
 
 Theorem k_hash_tight : forall x y, k_hash x y = true -> oeq x y = true -> ofeed x <> ofeed y.
 Proof. exact k_hash_tight_l. Qed.
